@@ -935,3 +935,135 @@ def _locality(tier="quick", seed=0):
 
 for _pid in ("C09", "C10"):
     EXTRA_CHECKS[_pid] = (lambda prev: (lambda tier="quick", seed=0: (prev(tier, seed) if prev else []) + _locality(tier, seed)))(EXTRA_CHECKS.get(_pid))
+
+
+# ---- C17 "regardless of whether samples run serially or in parallel and of the number of workers": the worker pool of utils.parallel_progress is created
+# with the re-seeding initializer (the contract on utils._worker_init says what it does; this clause says that every worker runs it)
+def _replay_parallel_draws():
+    """replay on the REAL parallel_progress (in a fresh interpreter: pool workers cannot have children): 8 jobs on 2 workers each return their process id
+    and one draw from numpy's global generator; the first draws of the two workers must differ"""
+    import json
+    import os
+    import subprocess
+    import sys
+
+    code = ("import sys, json, numpy as np\nsys.path.insert(0, %r); sys.path.insert(0, %r)\nimport atomica.utils as au\nfrom contracts.sampling import _draw\nnp.random.seed(12345)\n"
+            "draws = au.parallel_progress(_draw, list(range(8)), num_workers=2, show_progress=False)\nprint('DRAWS ' + json.dumps(draws))\n") % ("/verif", os.environ.get("ATOMICA_REPO", "/repo"))
+    out = subprocess.run([sys.executable, "-c", code], capture_output=True, text=True, timeout=180)
+    line = [l for l in out.stdout.splitlines() if l.startswith("DRAWS ")]
+    if not line:
+        return dict(verdict="error", detail="replay subprocess failed: %s" % out.stderr[-400:])
+    draws = json.loads(line[0][6:])
+    by_pid = {}
+    for pid, x in draws:
+        by_pid.setdefault(pid, []).append(x)
+    firsts = sorted(v[0] for v in by_pid.values())
+    dup = len(by_pid) > 1 and len(set(firsts)) < len(firsts)
+    return dict(verdict="violates" if dup else "holds", prestate=dict(workers=2, jobs=8, draws=draws),
+                detail=("two workers of parallel_progress produced the same first draw %r: they share the generator state inherited from the parent" % firsts[0]) if dup else "workers draw different numbers (%d workers)" % len(by_pid))
+
+
+def _c17_pool(tier="quick", seed=0):
+    return _attach(flow.callsites_pass("utils:parallel_progress", "Pool", "initializer", "_worker_init"), "callsite-passes-initializer", _replay_parallel_draws)
+
+
+_c17_before_pool = EXTRA_CHECKS["C17"]
+EXTRA_CHECKS["C17"] = (lambda tier="quick", seed=0: _c17_before_pool(tier, seed) + _c17_pool(tier, seed))
+
+
+# ---- C20 "the value reported for an output ... depends only on that output, those populations and the aggregation options -- not on which other outputs or
+# populations were requested in the same call or in what order": in the reporting modules no loop over series / outputs / populations carries a local
+# from one item to the next
+def _replay_report_alone_and_together():
+    """replay END TO END on the tb demo: a number output (`sus`) aggregated over 5-year bins alone, and together with a proportion (`p_div`) in both orders"""
+    import numpy as np
+
+    _quiet()
+    import atomica as at
+
+    P = at.demo("tb", do_run=False)
+    P.settings.update_time_vector(end=2020.0)
+    res = P.run_sim(P.parsets[0], store_results=False)
+    bins = np.arange(2000.0, 2021.0, 5.0)
+    alone = {(s.pop, s.output): np.array(s.vals) for s in at.PlotData(res, outputs=["sus"], t_bins=bins).series}
+    bad = []
+    for outs in (["sus", "p_div"], ["p_div", "sus"]):
+        for s in at.PlotData(res, outputs=outs, t_bins=bins).series:
+            if s.output == "sus" and not np.allclose(np.array(s.vals), alone[(s.pop, "sus")], rtol=1e-12, atol=0, equal_nan=True):
+                bad.append("`sus` in %s requested as %r: %r, requested alone: %r" % (s.pop, outs, [float(v) for v in s.vals[:2]], [float(v) for v in alone[(s.pop, "sus")][:2]]))
+    pre = dict(demo="tb", outputs=["sus", "p_div"], t_bins=[float(b) for b in bins])
+    return dict(verdict="violates" if bad else "holds", detail="; ".join(bad[:2]) or "the 5-year aggregate of `sus` is the same alone and next to `p_div`, in either order", prestate=pre)
+
+
+def _c20_loops(tier="quick", seed=0):
+    import ast
+
+    from pyvc import source
+
+    out, scanned = [], 0
+    for mod in ("plotting", "results", "cascade"):
+        m = source.load(mod)
+        names = list(m.functions.keys()) + ["%s.%s" % (c, f.name) for c, (node, _) in m.classes.items() for f in node.body if isinstance(f, ast.FunctionDef)]
+        for n in sorted(names):
+            scanned += 1
+            out += flow.no_loop_carried_locals("%s:%s" % (mod, n))
+    out.append(dict(function="plotting,results,cascade:all-functions", name="functions-scanned-for-loop-carried-locals:%d" % scanned, kind="structural", status="proved" if scanned > 60 else "refuted",
+                    seconds=0.0, backend="ast-analysis", note="a local assigned in a loop body is assigned in each iteration before it is read"))
+    return _attach(out, "iteration-uses-only-its-own-locals", _replay_report_alone_and_together)
+
+
+_c20_before_loops = EXTRA_CHECKS["C20"]
+EXTRA_CHECKS["C20"] = (lambda tier="quick", seed=0: _c20_before_loops(tier, seed) + _c20_loops(tier, seed))
+
+
+# ---- C16: reading a book, every row (table, program) is read from its own cells: in the modules that build objects from books no loop carries a local
+# from one item to the next -- a value set while scanning the cells of a row and used after them is reset for every row
+def _replay_effect_rows_are_independent():
+    """replay END TO END: in the hiv program book one parameter's first population row gets an uncertainty and the rows after it none; the book is
+    written and read back, and every (parameter, population) entry must read back with its own baseline, uncertainty and interactions"""
+    import logging
+    import warnings
+
+    import atomica as at
+
+    warnings.filterwarnings("ignore")
+    at.logger.setLevel(logging.ERROR)
+    P = at.demo("hiv", do_run=False)
+    ps = P.progsets[0].copy()
+    by_par = {}
+    for (par, pop), c in ps.covouts.items():
+        by_par.setdefault(par, []).append(pop)
+    par = next((p for p, pops in by_par.items() if len(pops) >= 2), None)
+    if par is None:
+        return dict(verdict="error", detail="the hiv program book has no parameter with effects in two populations")
+    first = by_par[par][0]
+    ps.covouts[(par, first)].sigma = 0.05
+    for pop in by_par[par][1:]:
+        ps.covouts[(par, pop)].sigma = None
+    view = lambda s: {k: (c.baseline, c.sigma, c.cov_interaction, c.imp_interaction, tuple(sorted(c.progs.items()))) for k, c in s.covouts.items()}
+    ps2 = at.ProgramSet.from_spreadsheet(ps.to_spreadsheet(), framework=P.framework, data=P.data)
+    a, b = view(ps), view(ps2)
+    bad = ["%r was written as %r and reads back as %r" % (k, a.get(k), b.get(k)) for k in sorted(set(a) | set(b)) if a.get(k) != b.get(k)]
+    pre = dict(program_book="hiv", parameter=par, uncertainty_only_on=first)
+    return dict(verdict="violates" if bad else "holds", detail="; ".join(bad[:2]) or "all %d program effect entries read back as written" % len(a), prestate=pre)
+
+
+def _c16_rows(tier="quick", seed=0):
+    import ast
+
+    from pyvc import source
+
+    out, scanned = [], 0
+    for mod in ("programs", "parameters", "data", "project"):
+        m = source.load(mod)
+        names = list(m.functions.keys()) + ["%s.%s" % (c, f.name) for c, (node, _) in m.classes.items() for f in node.body if isinstance(f, ast.FunctionDef)]
+        for n in sorted(names):
+            scanned += 1
+            out += flow.no_loop_carried_locals("%s:%s" % (mod, n), nested=True)
+    out.append(dict(function="programs,parameters,data,project:all-functions", name="functions-scanned-for-loop-carried-locals:%d" % scanned, kind="structural", status="proved" if scanned > 100 else "refuted",
+                    seconds=0.0, backend="ast-analysis", note="a local assigned in a loop body (nested loops included) is assigned in each iteration before it is read"))
+    return _attach(out, "iteration-uses-only-its-own-locals", _replay_effect_rows_are_independent)
+
+
+_c16_before_rows = EXTRA_CHECKS["C16"]
+EXTRA_CHECKS["C16"] = (lambda tier="quick", seed=0: _c16_before_rows(tier, seed) + _c16_rows(tier, seed))
